@@ -503,20 +503,19 @@ async fn serve_conn(sh: Arc<Shared>, node: usize, stream: TcpStream, peer: Socke
         held_seq: 0,
     };
     let mut pending: Pending = FuturesUnordered::new();
-    let mut close_by: Option<CloseBy> = None;
     let mut client_gone = false;
 
-    'main: loop {
+    let by: CloseBy = 'main: loop {
         tokio::select! {
             cmd = ctl_rx.recv() => match cmd {
-                Some(ConnCmd::Close(k)) => { close_by = Some(cut(&mut wr, k).await); break 'main; }
+                Some(ConnCmd::Close(k)) => { break 'main cut(&mut wr, k).await; }
                 Some(ConnCmd::Event(body)) => {
                     let f = Frame::response(-1, op::EVENT, body);
                     if let Some(k) = c.write_job(&mut wr, Job { out: Out::Frame(f), cut: None, reorder: 0, delay_ms: 0, release_held: None }, &mut pending).await {
-                        close_by = Some(k); break 'main;
+                        break 'main k;
                     }
                 }
-                None => { close_by = Some(CloseBy::Shutdown); break 'main; }
+                None => { break 'main CloseBy::Shutdown; }
             },
             f = frx.recv() => match f {
                 Some(Some(frame)) => {
@@ -525,19 +524,18 @@ async fn serve_conn(sh: Arc<Shared>, node: usize, stream: TcpStream, peer: Socke
                         let d = job.delay_ms;
                         pending.push(Box::pin(async move { tokio::time::sleep(Duration::from_millis(d)).await; job }));
                     } else if let Some(k) = c.write_job(&mut wr, job, &mut pending).await {
-                        close_by = Some(k); break 'main;
+                        break 'main k;
                     }
                 }
-                _ => { client_gone = true; close_by = Some(CloseBy::Client); break 'main; }
+                _ => { client_gone = true; break 'main CloseBy::Client; }
             },
             Some(job) = pending.next(), if !pending.is_empty() => {
                 if let Some(k) = c.write_job(&mut wr, job, &mut pending).await {
-                    close_by = Some(k); break 'main;
+                    break 'main k;
                 }
             }
         }
-    }
-    let by = close_by.unwrap_or(CloseBy::Shutdown);
+    };
     ns.conns.lock().unwrap().remove(&conn_id);
     sh.log(node, conn_id, shard, Ev::Close { by: by.clone() });
     match by {
